@@ -1268,7 +1268,7 @@ def run(ctx):
     rng = ctx.rng
     insts = [json.loads(json.dumps(c)) for c in CORPUS]
     import os
-    nrand = int(os.environ.get("WHVERIF_C01_N") or ctx.n(340, 5000))
+    nrand = int(os.environ.get("WHVERIF_C01_N") or ctx.n(300, 5000))
     for _ in range(nrand):
         insts.append(gen_instance(rng))
     for _ in range(ctx.n(30, 300)):      # malformed stream: trusted genotypes with a Mendelian conflict
@@ -1277,7 +1277,7 @@ def run(ctx):
         insts.append(gen_instance(rng, kind=rng.choice(["threegen", "twotrios"])))
     for _ in range(ctx.n(6, 150)):      # high coverage (up to 9 reads in one column), no trios
         insts.append(gen_instance(rng, kind=rng.choice(["single", "two"]), maxcov=rng.randint(7, 9), maxreads=9))
-    for _ in range(ctx.n(24, 300)):      # 9-17 columns: k = floor(sqrt(n)) in {3, 4}, incl. the perfect squares 9 and 16
+    for _ in range(ctx.n(20, 300)):      # 9-17 columns: k = floor(sqrt(n)) in {3, 4}, incl. the perfect squares 9 and 16
         kind = rng.choice(["single", "two", "trio", "trio"])
         insts.append(gen_instance(rng, kind=kind, n=rng.choice([9, 9, 10, 12, 15, 16, 16, 17]),
                                   maxcov=rng.randint(2, 3 if kind == "trio" else 4), maxreads=9))
